@@ -475,9 +475,19 @@ Fixpoint tok_eqb (a b : tok) : bool :=
   match a, b with TStr x, TStr y | TParen x, TParen y => str_eqb x y | TColon, TColon | TEq, TEq | TPlus, TPlus | TNl, TNl
   | TBrOpen, TBrOpen | TBrClose, TBrClose | TComma, TComma | TOther, TOther => true | _, _ => false end.
 Definition vt_text (v : N) : list N := nth (N.to_nat v) vt_texts [].
-Definition vt_lookup (s : list N) : option (bool * N) := flat (sassoc s vt_tab).
-Definition io_text (v : N) : list N := nth (N.to_nat v) io_texts [].
-Definition io_lookup (s : list N) : option N := flat (sassoc s io_tab).
+(* the type between the parentheses: the programs, the table and the decay read from the source (Fmt/FgdTypeText.v), members as
+   their index in the implementation's list(ValueTypes); an unknown type raises (the line parsers are run without the option) *)
+Fixpoint vt_index_from (i : N) (c : list N) (l : list (list N)) : option N :=
+  match l with [] => None | x :: r => if str_eqb x c then Some i else vt_index_from (i + 1) c r end.
+Definition vt_index (c : list N) : option N := vt_index_from 0 c vt_texts.
+Definition vt_lookup (s : list N) : option (bool * N) :=
+  match FgdTypeText.trun lower vt_lookup_tab kv_type_prog s with
+  | (b, FgdTypeText.Known c) => match vt_index c with Some i => Some (b, i) | None => None end
+  | _ => None
+  end.
+Definition io_text (v : N) : list N := FgdTypeText.io_text_of io_decay_tab io_special_text (vt_text v).
+Definition io_lookup (s : list N) : option N :=
+  match FgdTypeText.trun lower vt_lookup_tab io_type_prog s with (_, FgdTypeText.Known c) => vt_index c | _ => None end.
 Definition rt_text (v : N) : list N := nth (N.to_nat v) rt_texts [].
 Definition rt_lookup (s : list N) : option N := flat (sassoc s rt_tab).
 Definition decf (n : N) : list N := match find (fun p => fst p =? n) dec_tab with Some p => snd p | None => [] end.
@@ -582,21 +592,6 @@ class LineTables:
             if v is not None and len(v) <= 40:
                 self.raw.add(v)
 
-    def vt_lookup(self, raw: str) -> Optional[tuple[bool, int]]:
-        from srctools.fgd import VALUE_TYPE_LOOKUP
-        r = raw.strip()
-        star = r.startswith('*')
-        if star:
-            r = r[1:]
-        v = VALUE_TYPE_LOOKUP.get(r.casefold())
-        return None if v is None else (star, self.vt_index[v])
-
-    def io_lookup(self, raw: str) -> Optional[int]:
-        from srctools.fgd import VALUE_TYPE_LOOKUP, ValueTypes
-        r = raw.strip()
-        v = ValueTypes.EHANDLE if r == 'ehandle' else VALUE_TYPE_LOOKUP.get(r.casefold())
-        return None if v is None else self.vt_index[v]
-
     def rt_lookup(self, raw: str) -> Optional[int]:
         from srctools.fgd import RESTYPE_BY_NAME
         v = RESTYPE_BY_NAME.get(raw.casefold())
@@ -616,11 +611,7 @@ class LineTables:
         raws = sorted(self.raw)
         lines = [
             'Definition vt_texts : list (list N) := %s.' % coq_list(coq_s(v.value) for v in self.vts),
-            'Definition io_texts : list (list N) := %s.' % coq_list(coq_s(x) for x in self.io_text),
             'Definition rt_texts : list (list N) := %s.' % coq_list(coq_s(RESTYPE_TO_NAME[v]) for v in self.rts),
-            'Definition vt_tab : list (list N * option (bool * N)) := %s.' % coq_list(
-                '(%s, %s)' % (coq_s(r), opt(self.vt_lookup(r), lambda p: '(%s, %d)' % (coq_bool(p[0]), p[1]))) for r in raws),
-            'Definition io_tab : list (list N * option N) := %s.' % coq_list('(%s, %s)' % (coq_s(r), opt(self.io_lookup(r), str)) for r in raws),
             'Definition rt_tab : list (list N * option N) := %s.' % coq_list('(%s, %s)' % (coq_s(r), opt(self.rt_lookup(r), str)) for r in raws),
             'Definition undec_tab : list (list N * option N) := %s.' % coq_list('(%s, %s)' % (coq_s(r), opt(self.undec(r), str)) for r in raws),
             'Definition dec_tab : list (N * list N) := %s.' % coq_list('(%d, %s)' % (n, coq_s(str(n))) for n in sorted(self.ints)),
@@ -740,11 +731,11 @@ def line_data_obligations(ck: Ck) -> None:
     """Premises of the line theorems of Props/C16.v that are facts about the implementation's tables (exhaustive)."""
     import srctools.fgd as F
     lt = LineTables()
-    bad = [v.name for v in lt.vts if lt.vt_lookup(v.value) != (False, lt.vt_index[v])]
+    bad = [v.name for v in lt.vts if impl_type_of('kv', v.value, False) != (False, v)]      # the real KVDef._parse, strict
     ck.obligation('data:value_type_names_look_up_to_themselves', not bad,
                   f'{len(lt.vts)} ValueTypes: strip / leading * / casefold / VALUE_TYPE_LOOKUP of `.value` gives the member, not reportable '
                   f'(premise vt_lookup (vt_text v) = Some (false, v)); failing: {bad}')
-    bad = [v.name for i, v in enumerate(lt.vts) if lt.io_lookup(lt.io_text[i]) != lt.vt_index[F.VALUE_TO_IO_DECAY[v]]]
+    bad = [v.name for i, v in enumerate(lt.vts) if impl_type_of('io', lt.io_text[i], False) != (False, F.VALUE_TO_IO_DECAY[v])]   # the real IODef._parse
     ck.obligation('data:io_type_names_look_up_to_the_decayed_type', not bad,
                   f'what IODef.export writes for each of the {len(lt.vts)} types is read back as VALUE_TO_IO_DECAY[type] '
                   f'(premise io_lookup (io_text v) = Some (io_decay v)); failing: {bad}')
@@ -974,7 +965,7 @@ def corr_lines(ck: Ck) -> None:
         'let \'(l, cu, its, r) := c in BT l cu its r)) ' + coq_list('(%s, %s)' % (a, tl(ts)) for a, ts in w_body),
         'map (fun c : list tok * option (body N N * N) => pcase body_eqb (BR (fst c)) (snd c)) ' + coq_list('(%s, %s)' % (tl(ts), w) for ts, w in p_body),
     ]
-    vals = ck.coq_eval(IMPORTS, exprs, name='lines', preamble=PRE + lt.preamble(), timeout=900)
+    vals = ck.coq_eval(IMPORTS + ['SV.Fmt.FgdTypeText'], exprs, name='lines', preamble=PRE + lt.preamble(), timeout=900)
     names = ['KVDef.export', 'KVDef._parse', 'IODef.export', 'IODef._parse', 'EntityDef.export @resources', 'EntityDef.parse @resources',
              'EntityDef.export body', 'EntityDef.parse body']
     if vals is None:
@@ -3544,6 +3535,12 @@ def run(ck: Ck) -> None:
         ck.explain('instance:text_io_unknown_type')
         ck.explain('instance:text_type_')
         ck.explain('correspondence:text_type_text')
+    if any(k.startswith('type-text-') or k.startswith('generated-fgd') or k.startswith('bundled-db') for k in keys):
+        # a type text that is written is not read back as the (decayed) member: parse errors / changed definitions are the inputs
+        ck.explain('instance:text_io_decay')
+        ck.explain('instance:text_type_table')
+        ck.explain('data:io_type_names')
+        ck.explain('data:value_type_names')
     if any(k.startswith('generated-fgd') or k.startswith('bundled-db') for k in keys):
         ck.explain('instance:text_kv_')
         ck.explain('instance:text_bool_')
